@@ -8,7 +8,9 @@ slice strictly between the quotes (start + 1 .. end); Q3 the number of blanks th
 region is not a *string* display width (UnicodeWidthStr::width counts the NUL fillers of wide
 characters and ignores zero-width characters) nor a byte length; Q4 it is the content's columns
 plus the constant 2 for the quotes, the scan resumes right after the closing quote (end + 1), and
-the text before, between and after quoted regions is copied unchanged."""
+the text before, between and after quoted regions is copied unchanged; Q5 the row scanner (extracted grammar
+line_parse) agrees with the statement's reading of quotes on every string over {letter, blank, quote, backslash}
+up to length 6 (thorough: 9)."""
 import re
 
 from ..common import field_accesses, guards, is_derived_impl, short, where
@@ -206,7 +208,70 @@ def run(run):
         run.ok("C15.Q4", "text before/between quoted regions (index..start) and after the last one (index..) is copied; scan resumes at end + 1", where(b))
     else:
         run.bad("C15.Q4", "copy-ranges", where(b), "escape_line's copy ranges are %s; expected index..start, index.. with index = end + 1" % sorted(shapes))
+    q5(run, 6)
     run.assume("a literal NUL inside a quoted string is counted as zero columns (it occupies one); not decided")
 
 
 run_flow = run
+
+
+def ref_quote_pairs(s):
+    """the statement's reading of a row: a quoted region starts at a double quote and ends at the next double quote
+    that is not escaped by a backslash *inside the region*; outside quoted regions a backslash is an ordinary
+    (drawing) character.  Returns the (opening, closing) index pairs, left to right; an unbalanced quote ends the scan."""
+    out, i, n = [], 0, len(s)
+    while True:
+        j = i
+        while j < n and s[j] != '"':
+            j += 1
+        if j >= n:
+            break
+        k = j + 1
+        while k < n:
+            if s[k] == "\\" and k + 1 < n and s[k + 1] == '"':
+                k += 2
+                continue
+            if s[k] == '"':
+                break
+            k += 1
+        if k >= n:
+            break
+        out.append((j, k))
+        i = k + 1
+    return out
+
+
+def q5(run, maxlen):
+    """Q5 the row scanner agrees with the statement: the extracted grammar `line_parse` is compared with
+    ref_quote_pairs on every string over {letter, blank, quote, backslash} up to length maxlen"""
+    import itertools
+    from ..grammar import GrammarError, load_parser_module
+    from ..charset import Unknown
+    g, mod, gfile = load_parser_module(run)
+    if g is None or "line_parse" not in g.fns:
+        run.missing("C15.Q5", "util::parser::line_parse")
+        return
+    n = 0
+    for L in range(0, maxlen + 1):
+        for tup in itertools.product('a "\\', repeat=L):
+            text = "".join(tup)
+            n += 1
+            try:
+                ok, pos, out = g.parse("line_parse", text)
+            except (GrammarError, Unknown) as ex:
+                run.bad("C15.Q5", "line-grammar-uninterpretable", gfile, "grammar line_parse: %s" % ex)
+                return
+            got = [tuple(x) for x in out] if ok and isinstance(out, list) else None
+            want = ref_quote_pairs(text)
+            if got != want:
+                run.bad("C15.Q5", "quote-scanner", gfile,
+                        "the row scanner finds the quoted regions %r in %r, the statement's reading is %r (a backslash outside a quoted region is a drawing character, "
+                        "not an escape; regions pair up left to right)" % (got, text, want))
+                return
+    run.ok("C15.Q5", "line_parse agrees with the statement's reading of quotes on all %d strings over {a, blank, quote, backslash} up to length %d" % (n, maxlen), gfile)
+    run.floor("C15.Q5", "strings", n, 1000)
+
+
+def thorough(run):
+    q5(run, 9)
+
